@@ -104,6 +104,30 @@ pub fn worker(ctx: &mut WorkerCtx) {
             work.push((b1 + i, c.to_vec()));
         }
     });
+    // the statement programs with a *divergence epilogue*: instead of printing the variables the program
+    // spins on every non-zero one, so a miscompilation that leaves a wrong (zero / non-zero) value in a
+    // variable turns a terminating program into a divergent one or the reverse
+    let epi = spaces::EPILOGUE.as_bytes();
+    let mut spin: Vec<(u64, Vec<u8>)> = Vec::new();
+    let thorough = ctx.tier == Tier::Thorough;
+    let mut with_spin = |i: u64, c: &[u8], spin: &mut Vec<(u64, Vec<u8>)>| {
+        if ctx.owns(i) && c.ends_with(epi) {
+            let mut v = c[..c.len() - epi.len()].to_vec();
+            v.extend_from_slice(b"[]>[]>[]>[]>[]");
+            spin.push((i, v));
+        }
+    };
+    let e0 = base;
+    base += spaces::space_s(1, 0, &mut |i, c| with_spin(e0 + i, c, &mut spin));
+    let e1 = base;
+    base += spaces::space_sp(&mut |i, c| {
+        // space_sp enumerates (body, post, prefix, shape) with the shape fastest: the input-only prefix and,
+        // in the quick tier, the `while` and `if` shapes
+        let (shape, prefix) = (i % 4, (i / 4) % 3);
+        if prefix == 0 && (thorough || shape >= 2) {
+            with_spin(e1 + i, c, &mut spin)
+        }
+    });
     for (_, c) in spaces::space_k() {
         if ctx.owns(base) {
             work.push((base, c));
@@ -127,7 +151,11 @@ pub fn worker(ctx: &mut WorkerCtx) {
     let mut silent_done = 0u64;
     for (idx, code) in work {
         ctx.mark(idx, 0, &code);
-        judge_program(ctx, &p, &code, &mut silent_done);
+        judge_program(ctx, &p, &code, &mut silent_done, false);
+    }
+    for (idx, code) in spin {
+        ctx.mark(idx, 0, &code);
+        judge_program(ctx, &p, &code, &mut silent_done, true);
     }
 }
 
@@ -159,19 +187,33 @@ fn is_wide(code: &[u8]) -> bool {
 pub fn replay_program(ctx: &mut WorkerCtx, code: &[u8]) {
     let p = plan(ctx.tier);
     let mut silent_done = 0u64;
-    judge_program(ctx, &p, code, &mut silent_done);
+    let spin = code.ends_with(b"[]>[]>[]>[]>[]");
+    judge_program(ctx, &p, code, &mut silent_done, spin);
 }
 
-fn judge_program(ctx: &mut WorkerCtx, p: &Plan, code: &[u8], silent_done: &mut u64) {
+/// `spin`: a statement program with the divergence epilogue: the eight zero / non-zero input patterns of
+/// the three variables, optimising levels only, and in the quick tier 8-bit cells only.
+fn judge_program(ctx: &mut WorkerCtx, p: &Plan, code: &[u8], silent_done: &mut u64, spin: bool) {
     let code = code.to_vec();
     {
         ctx.count("programs", 1);
         let text = std::str::from_utf8(&code).unwrap();
-        for &w in &p.widths {
+        let spin_widths = [Width::W8];
+        let widths: &[Width] = if spin && p.depth < 2 { &spin_widths } else { &p.widths };
+        for &w in widths {
             let wide = is_wide(&code);
             let runs = if wide {
                 // the shift loops are closed in one step by the accelerated reference (validated in C04)
                 [1u8, 2, 128, 255, 0].iter().map(|&a| (vec![a], refbf::run_opt(&code, w, &[a], p.step_cap, true, true))).collect()
+            } else if spin {
+                // every zero / non-zero pattern of the three variables
+                (0..8u8)
+                    .map(|m| {
+                        let s: Vec<u8> = (0..3).map(|i| if m >> i & 1 == 1 { 5 } else { 0 }).collect();
+                        let c = refbf::run(&code, w, &s, p.step_cap, true);
+                        (s, c)
+                    })
+                    .collect()
             } else {
                 diff::explore_env(&code, w, p.depth, p.step_cap, true)
             };
@@ -187,7 +229,7 @@ fn judge_program(ctx: &mut WorkerCtx, p: &Plan, code: &[u8], silent_done: &mut u
             }
             for backend in Backend::ALL {
                 for level in levels(backend) {
-                    if wide && (level == 0 || backend == Backend::Inplace) {
+                    if (wide || spin) && (level == 0 || backend == Backend::Inplace) {
                         continue;
                     }
                     ctx.beat((backend as u64) << 40 | (w.bits() as u64) << 32 | level as u64);
